@@ -3,6 +3,7 @@ package main
 import (
 	"bytes"
 	"context"
+	"errors"
 	"fmt"
 	"google.golang.org/grpc"
 	"google.golang.org/grpc/metadata"
@@ -105,7 +106,13 @@ func runC14(o *hx.Out, r *hx.Rand, thorough bool) {
 		httpgrpc.ErrorRenderer(func(context.Context, *status.Status, http.ResponseWriter) {}))
 	// 2. the real server with the default renderer, request context live or ended
 	var ret error
-	svc := &hx.Svc{Unary: func(ctx context.Context, req *hx.Msg) (*hx.Msg, error) { return nil, ret }}
+	var relayed metadata.MD // response metadata a relaying handler passes on before it fails
+	svc := &hx.Svc{Unary: func(ctx context.Context, req *hx.Msg) (*hx.Msg, error) {
+		if relayed != nil {
+			grpc.SetHeader(ctx, relayed)
+		}
+		return nil, ret
+	}}
 	desc := hx.Desc(hx.SvcName)
 	h := httpgrpc.HandleMethod(svc, hx.SvcName, &desc.Methods[0], nil)
 	for _, c := range cs {
@@ -177,6 +184,27 @@ func runC14(o *hx.Out, r *hx.Rand, thorough bool) {
 			o.Case("client_header", fmt.Sprintf("Client %d (Some %s) %d", hs, hx.Str(hv), got), map[string]interface{}{"http": hs, "x-grpc-status": hv + ":m", "code": got})
 		}
 	}
+	// 3b. a reply whose headers say "failed" and whose BODY (the renderer's page) cannot be read to the end:
+	// the status travels in the headers, so the code is the one they name
+	for _, hs := range []int{200, 404, 500, 503} {
+		for _, hv := range []string{"", "5", "16", "3"} {
+			for _, how := range []string{"body breaks off (unexpected EOF)", "connection reset while reading the body"} {
+				h := http.Header{}
+				if hv != "" {
+					h.Set("X-GRPC-Status", hv+":m")
+				}
+				if hs == 200 && hv == "" {
+					continue // a successful reply that is cut is a different matter
+				}
+				got := codeOfErr(call(brokenBodyRT{status: hs, hdr: h, reset: strings.HasPrefix(how, "connection")}))
+				hdrTerm := "None"
+				if hv != "" {
+					hdrTerm = "(Some " + hx.Str(hv) + ")"
+				}
+				o.Case("client_unreadable_page", fmt.Sprintf("Client %d %s %d", hs, hdrTerm, got), map[string]interface{}{"http": hs, "x-grpc-status": hv, "body": how, "code": got})
+			}
+		}
+	}
 	// 4. end to end over a loopback socket with the default, a silent and a custom renderer
 	renderers := []struct {
 		name string
@@ -223,6 +251,24 @@ func runC14(o *hx.Out, r *hx.Rand, thorough bool) {
 			}
 			if got != want {
 				o.Violate("caller does not recover the handler's code", map[string]interface{}{"code": c, "renderer": rd.name}, got, want)
+			}
+		}
+		// a relaying handler: it passes on the response metadata of a backend call (which, with this very client,
+		// includes the backend's x-grpc-status) and then fails with its OWN code: the caller recovers that one
+		for i, c := range e2e {
+			if i%5 != 0 || c == 0 {
+				continue
+			}
+			for _, stale := range []string{"0:OK", "5:backend says not found"} {
+				ret = codeErr{c}
+				relayed = metadata.Pairs("x-grpc-status", stale, "x-backend", "b")
+				got := codeOfErr(ch.Invoke(context.Background(), "/verif.Svc/U", &hx.Msg{}, &hx.Msg{}))
+				relayed = nil
+				d := map[string]interface{}{"code": c, "renderer": rd.name, "handler_response_metadata": "x-grpc-status: " + stale + " (relayed from a backend call)", "client_code": got}
+				o.Case("end_to_end_relay_"+rd.name, fmt.Sprintf("EndToEnd %d %d %d", c, rd.http, got), d)
+				if got != c {
+					o.Violate("caller does not recover the handler's code when the handler's own response metadata names another status", d, got, c)
+				}
 			}
 		}
 		// the same with error details, one of which the codec cannot encode (an Any whose type URL is not
@@ -288,4 +334,40 @@ func (t redirectRT) RoundTrip(r *http.Request) (*http.Response, error) {
 	}
 	return &http.Response{StatusCode: st, Status: fmt.Sprintf("%d %s", st, http.StatusText(st)), Proto: "HTTP/1.1", ProtoMajor: 1, ProtoMinor: 1,
 		Header: h, Body: io.NopCloser(bytes.NewReader(nil)), Request: r}, nil
+}
+
+// brokenBodyRT answers with the given status and headers and a body that fails part-way
+type brokenBodyRT struct {
+	status int
+	hdr    http.Header
+	reset  bool
+}
+
+type brokenBody struct {
+	sent  bool
+	reset bool
+}
+
+func (b *brokenBody) Read(p []byte) (int, error) {
+	if !b.sent {
+		b.sent = true
+		return copy(p, "an error page that never"), nil
+	}
+	if b.reset {
+		return 0, errors.New("read tcp 127.0.0.1:1->127.0.0.1:2: read: connection reset by peer")
+	}
+	return 0, io.ErrUnexpectedEOF
+}
+func (b *brokenBody) Close() error { return nil }
+
+func (s brokenBodyRT) RoundTrip(r *http.Request) (*http.Response, error) {
+	if r.Body != nil {
+		io.Copy(io.Discard, r.Body)
+		r.Body.Close()
+	}
+	return &http.Response{
+		StatusCode: s.status, Status: fmt.Sprintf("%d %s", s.status, http.StatusText(s.status)),
+		Proto: "HTTP/1.1", ProtoMajor: 1, ProtoMinor: 1, ContentLength: 4096,
+		Header: s.hdr.Clone(), Body: &brokenBody{reset: s.reset}, Request: r,
+	}, nil
 }
